@@ -90,6 +90,24 @@ func genOther(g *gen, prop string, budget int, emit func(string)) bool {
 		for i := 1; i < budget; i++ {
 			emit(g.routerScript(5+g.r.Intn(60), true))
 		}
+	case "C05":
+		// the directed history of the recorded finding first (request delivered, every
+		// acknowledgement lost until the response timeout, then the number is reused)
+		emit("sw 50 230 3 3 0 0 0 5 c2g=dddddd g2c=llllld")
+		emit("sw 50 230 4 2 2 0 0 5 c2g=ddddd g2c=dddd") // loss-free
+		for i := 2; i < budget; i++ {
+			nOut, nIn := 1+g.r.Intn(12), g.r.Intn(12)
+			if i%40 == 5 {
+				nOut, nIn = 280, 270 // across the wrap at 256
+			}
+			R := g.pick(50, 30, 70)
+			T := g.pick(230, 170, 410)
+			loss := g.pick(0, 5, 10, 25, 40)
+			if nOut > 100 {
+				loss = g.pick(0, 5)
+			}
+			emit(fmt.Sprintf("sw %d %d %d %d %d %d %d %d", R, T, g.r.Intn(1<<30), nOut, nIn, loss, g.pick(0, 10, 30), g.pick(3, 20, 2*R+5)))
+		}
 	default:
 		return false
 	}
